@@ -51,6 +51,9 @@ pub enum Act {
     ReleaseStream(usize),
     /// the stream of subscribe op i is passed to another task: polled under a new waker from now on
     HandoverStream(usize),
+    /// the future of run() / of operation i moves to another task (new waker)
+    HandoverCtx,
+    HandoverOp(usize),
     Term(TermAct),
     /// after run() ended on a cause: connect the same Context again (0 = session resumed, 1 = resumed under Receive
     /// Maximum 2, 2 = long after the disconnection, 3 = without a recorded disconnection) and run
@@ -87,6 +90,7 @@ pub struct Alpha {
     pub streams: bool,
     pub stream_holds: bool,
     pub stream_handover: bool,
+    pub task_handover: bool,
     pub terms: Vec<TermAct>,
     pub drop_ctx: bool,
     pub after_drop_kinds: Vec<Kind>,
@@ -120,6 +124,7 @@ impl Default for Alpha {
             streams: false,
             stream_holds: false,
             stream_handover: false,
+            task_handover: false,
             terms: vec![],
             drop_ctx: false,
             after_drop_kinds: vec![],
@@ -276,6 +281,16 @@ pub fn enabled(w: &World, a: &Alpha) -> Vec<Act> {
             v.push(Act::Reconnect(3));
         }
     }
+    if a.task_handover && !w.ctx_dropped {
+        if w.sim.ctx_in_call().is_some() && !w.sim.hold_ctx {
+            v.push(Act::HandoverCtx);
+        }
+        for i in 0..w.m.len() {
+            if w.m[i].submitted && !w.m[i].dropped && w.sim.ops[i].task.alive() && !w.sim.ops[i].held {
+                v.push(Act::HandoverOp(i));
+            }
+        }
+    }
     if a.drop_ctx {
         v.push(Act::DropCtx);
     }
@@ -402,6 +417,8 @@ pub fn apply(w: &mut World, act: Act) {
             w.take_stream(i);
         }
         Act::DropStream(i) => w.drop_stream(i),
+        Act::HandoverCtx => w.sim.handover_ctx(),
+        Act::HandoverOp(i) => w.sim.handover_op(i),
         Act::HandoverStream(i) => {
             if let Some(s) = w.m[i].stream {
                 w.sim.handover_stream(s);
